@@ -21,6 +21,7 @@ open EmdModel
 
 def isStoredSeq : PyVal → Bool
   | .tuple _ (some _) => true
+  | .seqNp true _ => true
   | _ => false
 
 mutual
@@ -31,6 +32,7 @@ def documented : PyVal → Bool
   | .npnum _ _ _ => true
   | .str s => s != "_None"
   | .arr _ => true
+  | .seqNp _ _ => true
   | .tuple xs st =>
     match xs with
     | [] => st.isSome
@@ -131,6 +133,13 @@ theorem readAll_tuples : ∀ (xs : List PyVal), xs.all isStoredSeq = true →
       cases st with
       | none => simp [isStoredSeq] at h
       | some t =>
+        refine ⟨.tok t :: ds, ?_, by simp [h2], ?_⟩
+        · simp [List.mapM_cons, PyVal.elemStore, h1]
+        · simp [readAll, elemRead, h3, canonElems, bind, Except.bind, pure, Except.pure]
+    | seqNp b t =>
+      cases b with
+      | false => simp [isStoredSeq] at h
+      | true =>
         refine ⟨.tok t :: ds, ?_, by simp [h2], ?_⟩
         · simp [List.mapM_cons, PyVal.elemStore, h1]
         · simp [readAll, elemRead, h3, canonElems, bind, Except.bind, pure, Except.pure]
@@ -275,7 +284,9 @@ theorem C03_item : ∀ (v : PyVal), documented v = true → ∃ o, saveItem v = 
           · simp [hs] at h
   | .npbool _, h => by simp [documented] at h
   | .bytes _, h => by simp [documented] at h
-  | .seqNp _ _, h => by simp [documented] at h
+  | .seqNp b t, _ => by
+    refine ⟨_, rfl, ?_⟩
+    cases b <;> rfl
   | .other _, h => by simp [documented] at h
 /-- C03 (a dictionary of items, hence nested dictionaries to any depth) -/
 theorem C03_items : ∀ (items : List (String × PyVal)), documentedItems items = true →
